@@ -135,6 +135,12 @@ void ProbeTransports() {
   WriterFull(&pw);
   StreamWriter<std::stringstream> sw;
   WriterFull(&sw);
+  // arrays of arrays: the element type of the outer array is an array, hence NOT integral (ARY of BIN, never one flat BIN).
+  // Only through the stream classes here, whose block transfers take any pointer: this must compile whatever the encoder selects.
+  std::int16_t marr[2][3] = {};
+  std::array<std::int16_t[3], 2> mstd = {};
+  WriteWith(&sw, marr);
+  WriteWith(&sw, mstd);
   (void)sw.stream();
   (void)sw.take();
 
@@ -150,6 +156,8 @@ void ProbeTransports() {
   (void)pr.capacity();
   StreamReader<std::stringstream> sr;
   ReaderFull(&sr);
+  ReadWith(&sr, &marr);
+  ReadWith(&sr, &mstd);
   (void)sr.stream();
   (void)sr.take();
 
